@@ -113,6 +113,57 @@ theorem popWaiting_some (p : Nat → Bool) (fuel : Nat) (q : WQ) (w : Nat) (q' :
         · simp [hp] at h; exact ih _ h
       · simp at h
 
+/-! ## why ReleaseConn's loop is one event
+
+`w.waiting()` and `w.tryDeliver(cc, nil)` are two steps: the waiter's `cancel` (which only needs `w.mu`) can slip in
+between.  `popDeliver` is the loop as written — `check` is what `w.waiting()` saw, `deliver w` whether `tryDeliver`
+then succeeded; a waiter can only stop waiting in between, never start again.  Because a failed delivery goes on with
+the next waiter (and the connection becomes idle if nobody took it), the loop equals the atomic loop evaluated at the
+time of the deliveries: the racing cancel might as well have happened before the release. -/
+
+def popDeliver (check deliver : Nat → Bool) : Nat → WQ → Option Nat × WQ
+  | 0, q => (none, q)
+  | fuel + 1, q =>
+    if q.len = 0 then (none, q)
+    else
+      match q.popFront with
+      | (some w, q') =>
+        if check w then (if deliver w then (some w, q') else popDeliver check deliver fuel q')
+        else popDeliver check deliver fuel q'
+      | (none, q') => (none, q')
+
+theorem popDeliver_eq_popWaiting (check deliver : Nat → Bool) (h : ∀ w, deliver w = true → check w = true)
+    (fuel : Nat) (q : WQ) : popDeliver check deliver fuel q = WQ.popWaiting deliver fuel q := by
+  induction fuel generalizing q with
+  | zero => rfl
+  | succ n ih =>
+    simp only [popDeliver, WQ.popWaiting]
+    by_cases hl : q.len = 0
+    · simp [hl]
+    · simp only [hl, if_false]
+      rcases hp : q.popFront with ⟨o, q'⟩
+      cases o with
+      | none => rfl
+      | some w =>
+        simp only
+        by_cases hd : deliver w = true
+        · simp [hd, h w hd]
+        · by_cases hc : check w = true
+          · simp [hd, hc, ih]
+          · simp [hd, hc, ih]
+
+/-- the loop that gives up after the first failed delivery (`w.tryDeliver(cc, nil); return`) -/
+def popDeliverNoRetry (check deliver : Nat → Bool) : Nat → WQ → Option Nat × WQ × Bool
+  | 0, q => (none, q, false)
+  | fuel + 1, q =>
+    if q.len = 0 then (none, q, false)
+    else
+      match q.popFront with
+      | (some w, q') =>
+        if check w then (if deliver w then (some w, q', false) else (none, q', true))   -- true: returned without idle
+        else popDeliverNoRetry check deliver fuel q'
+      | (none, q') => (none, q', false)
+
 /-! ## the accounting invariant -/
 
 theorem countP_set' {α : Type} (l : List α) (i : Nat) (x old : α) (h : l[i]? = some old) (p : α → Bool) :
